@@ -75,7 +75,102 @@ let winput_of nv mn sha crc kind len ts map =
     wi_map_crc = z_of_int (int_of_string crc); wi_kind = (if kind = "c" then Client else Server);
     wi_length = z_of_int (int_of_string len); wi_timestamp = unhex ts; wi_map = unhex map }
 
+(* ---------- high-level layer ---------- *)
+let serr_txt = function
+  | Snap.UnexpectedEnd -> "UnexpectedEnd" | Snap.IntOutOfRange -> "IntOutOfRange"
+  | Snap.DeletedItemsUnpacking -> "DeletedItemsUnpacking" | Snap.ItemDiffsUnpacking -> "ItemDiffsUnpacking"
+  | Snap.TypeIdRange -> "TypeIdRange" | Snap.IdRange -> "IdRange" | Snap.NegativeSize -> "NegativeSize"
+  | Snap.TooLongDiff -> "TooLongDiff" | Snap.TooLongSnap -> "TooLongSnap" | Snap.TooManyItems -> "TooManyItems"
+  | Snap.DeltaDifferingSizes -> "DeltaDifferingSizes" | Snap.OffsetsUnpacking -> "OffsetsUnpacking"
+  | Snap.InvalidOffset -> "InvalidOffset" | Snap.ItemsUnpacking -> "ItemsUnpacking"
+  | Snap.DuplicateKey -> "DuplicateKey" | Snap.DuplicateUuidType -> "DuplicateUuidType"
+  | Snap.InvalidUuidType -> "InvalidUuidType" | Snap.MissingUuidType -> "MissingUuidType"
+let berr_txt = function
+  | Snap.BDuplicateKey -> "DuplicateKey" | Snap.BTooLongSnap -> "TooLongSnap" | Snap.BTooManyItems -> "TooManyItems"
+let swarn_txt = function
+  | Snap.WPacker w -> "s" ^ pw w | Snap.NonZeroPadding -> "sNonZeroPadding" | Snap.DuplicateDelete -> "sDuplicateDelete"
+  | Snap.DuplicateUpdate -> "sDuplicateUpdate" | Snap.UnknownDelete -> "sUnknownDelete"
+  | Snap.DeleteUpdate -> "sDeleteUpdate" | Snap.NumUpdatedItems -> "sNumUpdatedItems"
+  | Snap.ExcessSnapData -> "sExcessSnapData" | Snap.ExcessUuidItemData -> "sExcessUuidItemData"
+let hwarn_txt = function DemoHL.HWDemo w -> warn_txt w | DemoHL.HWSnapshot w -> swarn_txt w
+let hwsfx ws = if ws = [] then "" else "!" ^ String.concat "," (List.map hwarn_txt ws)
+
+let ty_of s =
+  if s.[0] = 'o' then Snap.Ordinal (z_of_int (int_of_string (String.sub s 1 (String.length s - 1))))
+  else Snap.Uuid (Snap.uuid_of_bytes (unhex (String.sub s 1 (String.length s - 1))))
+let ty_txt = function
+  | Snap.Ordinal o -> "o" ^ zs o
+  | Snap.Uuid u -> "u" ^ hex (Snap.uuid_to_bytes u)
+let ints_of s = if s = "" then [] else List.map (fun x -> z_of_int (int_of_string x)) (String.split_on_char ',' s)
+let item_of s =
+  match String.split_on_char '/' s with
+  | [ty; id; data] -> ((ty_of ty, z_of_int (int_of_string id)), ints_of data)
+  | _ -> failwith "bad item"
+let item_txt ((ty, id), data) = Printf.sprintf "%s/%s/%s" (ty_txt ty) (zs id) (String.concat "," (List.map zs data))
+let hop_of s =
+  match s.[0] with
+  | 'S' -> (match String.split_on_char ':' s with
+      | [_; t; items] ->
+        let items = List.filter (fun x -> x <> "") (String.split_on_char ';' items) in
+        DemoHL.HSnap (z_of_int (int_of_string t), List.map item_of items)
+      | _ -> failwith "bad snap op")
+  | _ -> DemoHL.HMsg (unhex (String.sub s 2 (String.length s - 2)))
+let sizes_of s =
+  (* sz=<ty>:<size>,... *)
+  let body = String.sub s 3 (String.length s - 3) in
+  if body = "" then [] else
+  List.map (fun e -> match String.split_on_char ':' e with
+      | [t; n] -> (z_of_int (int_of_string t), z_of_int (int_of_string n))
+      | _ -> failwith "bad size") (String.split_on_char ',' body)
+
+let hres_txt = function
+  | Ok _ -> "o"
+  | Err (DemoHL.HSnapBuilder e) -> "eB" ^ berr_txt e
+  | Err DemoHL.HTooLowTickNumber -> "eT"
+  | Err DemoHL.HTooLargeSnap -> "eS"
+  | Err DemoHL.HTooLongNetMsg -> "eM"
+  | Panic _ -> "p" | OutOfFuel -> "h"
+
+let hchunk_txt = function
+  | DemoHL.HCTick t -> "T" ^ zs t
+  | DemoHL.HCMessage m -> "M" ^ hex m
+  | DemoHL.HCSnapshot items -> "S[" ^ String.concat ";" (List.map item_txt items) ^ "]"
+  | DemoHL.HCInvalid -> "I"
+
+let hread_txt sz file : string =
+  match DemoHL.hread_all sz file with
+  | Err e -> "hdr-err:" ^ err_txt e
+  | Panic _ -> "hdr-panic"
+  | OutOfFuel -> "hdr-hang"
+  | Ok ((h, ws), (cs, (fin, fws))) ->
+    let b = Buffer.create 1024 in
+    Buffer.add_string b (Printf.sprintf "hdr v=%s w=%s" (ver_txt (header_view h).hv_version) (warns ws));
+    List.iter (fun (c, ws) -> Buffer.add_char b ' '; Buffer.add_string b (hchunk_txt c); Buffer.add_string b (hwsfx ws)) cs;
+    Buffer.add_char b ' ';
+    Buffer.add_string b (match fin with
+      | Ok _ -> "end"
+      | Err (DemoHL.HEInner e) -> "err:" ^ err_txt e
+      | Err (DemoHL.HESnap e) -> "err:snap-" ^ serr_txt e
+      | Panic _ -> "panic" | OutOfFuel -> "hang");
+    Buffer.add_string b (hwsfx fws);
+    Buffer.contents b
+
 let run = function
+  | "hl" :: nv :: mn :: sha :: crc :: kind :: len :: ts :: map :: sizes :: ops ->
+    let ops = List.filter (fun s -> s <> "") ops in
+    let sz = DemoHL.osize_of (sizes_of sizes) in
+    (match writer_new (winput_of nv mn sha crc kind len ts map) with
+     | Ok hdr ->
+       let pieces = ref [hdr] and w = ref DemoHL.hwriter_new and res = ref [] and stop = ref false in
+       List.iter (fun s ->
+           if not !stop then begin
+             let ((w', bs), r) = DemoHL.hstep sz !w (hop_of s) in
+             pieces := bs :: !pieces; w := w'; res := hres_txt r :: !res;
+             (match r with Panic _ | OutOfFuel -> stop := true | _ -> ())
+           end) ops;
+       let file = List.concat (List.rev !pieces) in
+       Printf.sprintf "new=ok res=%s file=%s | %s" (String.concat "," (List.rev !res)) (hex file) (hread_txt sz file)
+     | Err _ -> "new=err" | Panic _ -> "new=panic" | OutOfFuel -> "new=hang")
   | "wr" :: nv :: mn :: sha :: crc :: kind :: len :: ts :: map :: ops ->
     let ops = List.filter (fun s -> s <> "") ops in
     (match writer_new (winput_of nv mn sha crc kind len ts map) with
